@@ -37,9 +37,19 @@ ALPHABET = ['app1', 'app2x', 'applist', 'appscalar', 'app0', 'iter2', 'iter0', '
             'itergen', 'set', 'ctx:app1+app1', 'trunc0', 'trunc1', 'truncm1', 'truncbelow', 'trunclen',
             'truncstr', 'badshape', 'badrank', 'modecycle', 'reopen']
 # additional ops for long random histories
-EXTRA = ['ctx:app3+truncm1+app1', 'ctx:app3+trunc1', 'badshape0', 'badrank0', 'md_bad', 'ctx:app1+iterfail_shape', 'ctx:app3+iterfail_raise', 'ctx:app1+app1+app1', 'ctx:set+iter2', 'ctx:applist+app2x', 'ctx:app0+app1', 'ctx:set+app3', 'app_zerod', 'iterfail_shape', 'iterfail_raise', 'iterfail_first', 'setscalar', 'trunclen1', 'truncfloat', 'truncmid', 'truncneg2', 'app3',
+EXTRA = ['ctx:iterfail_shape+app1', 'ctx:app1+iterfail_raise+app3', 'ctx:app3+truncm1+app1', 'ctx:app3+trunc1', 'badshape0', 'badrank0', 'md_bad', 'ctx:app1+iterfail_shape', 'ctx:app3+iterfail_raise', 'ctx:app1+app1+app1', 'ctx:set+iter2', 'ctx:applist+app2x', 'ctx:app0+app1', 'ctx:set+app3', 'app_zerod', 'iterfail_shape', 'iterfail_raise', 'iterfail_first', 'setscalar', 'trunclen1', 'truncfloat', 'truncmid', 'truncneg2', 'app3',
          'recreate', 'recreate_fill', 'md_set', 'md_pop', 'md_clear', 'itergen3', 'copy', 'copycast']
 STARTS = [(0,), (3,), (0, 2), (2, 2), (2, 1, 3)]
+
+
+def _must_raise(d_, sop):
+    def wrapped(D, a, p):
+        try:
+            d_(D, a, p)
+        except Exception:
+            return a
+        raise AssertionError(f'failing append {sop} inside the context returned normally')
+    return wrapped
 
 
 def concat(ref, x):
@@ -69,8 +79,11 @@ def build(op, ref, rng, meta):
             e, d_ = build(sop, cur, rng, meta)
             if isinstance(e, Partial) and k_ == len(subs) - 1:
                 final, e = e, e.state          # a failing append may close the composite
-            elif e is REJECT or isinstance(e, (Partial, Either)):
-                raise ValueError(f'ctx: only valid sub-operations (a failing append only last), not {sop}')
+            elif isinstance(e, Partial):
+                # a failing append in the middle: the caller catches its exception inside the context and goes on
+                e, d_ = e.state, _must_raise(d_, sop)
+            elif e is REJECT or isinstance(e, Either):
+                raise ValueError(f'ctx: only valid or failing-append sub-operations, not {sop}')
             cur = e
             dos.append(d_)
             states.append(e)     # expected contents after each sub-operation (for reads made INSIDE the context)
